@@ -2,7 +2,7 @@
 # usage: eval_seeds.sh [tier] [seed ids...] -- applies each seeded change to /repo, runs the property's check, undoes it
 T=${1:-quick}; shift
 cd /verif
-IDS=${@:-$(ls seeded)}
+IDS=${@:-$(ls -d seeded/*/ | xargs -n1 basename)}
 mkdir -p .cache/logs/seeds
 for id in $IDS; do
   P=$(echo $id | sed -E 's/^c([0-9]+)_.*/C\1/')
